@@ -557,8 +557,38 @@ M('C12', 'reader-drops-numeric-propensity-values', SB, "                    try:
 # ------------------------------------------------------------------ behaviour-preserving refactorings written by independent agents (must stay silent)
 for _patch, _props in (('refactors/R3/patch.diff', ('C04', 'C05', 'C06', 'C07', 'C09', 'C10', 'C11')),
                        ('refactors/R4/patch.diff', ('C05', 'C06', 'C07', 'C08', 'C19', 'C20')),
-                       ('refactors/R6/patch.diff', ('C15', 'C16', 'C18'))):
+                       ('refactors/R6/patch.diff', ('C15', 'C16', 'C18')),
+                       ('refactors/R1/patch.diff', ('C01', 'C03', 'C06', 'C08', 'C10', 'C11', 'C12')),
+                       ('refactors/R2/patch.diff', ('C02', 'C09')),
+                       ('refactors/R5/patch.diff', ('C12', 'C13', 'C14')),
+                       ('refactors/R7/patch.diff', ('C01', 'C08', 'C09', 'C17', 'C19'))):
     for _p in _props:
         MUTANTS.append({'prop': _p, 'name': 'refactor-' + _patch.split('/')[1], 'kind': 'silent', 'patch': _patch})
 M('C06', 'revert-sentinel-slot', S, "empty_array = -np.ones((self.num_reactions, self.num_species + 1, 2), dtype = np.int32)", "empty_array = -np.ones((self.num_reactions, self.num_species, 2), dtype = np.int32)", 'fire', 'R6.4-safe-sentinel/SafeModelCSimInterface')
 M('C17', 'queue-reduce-through-constructor', S, "    @staticmethod\n    def setup_queue(", "    def __reduce__(self):\n        return (ArrayDelayQueue, (self.queue, self.dt, self.next_queue_time - self.dt))\n\n    @staticmethod\n    def setup_queue(", 'fire', 'R17.2-reduce-coverage/ArrayDelayQueue')
+
+M('C19', 'single-point-row-from-stale-buffer', L,
+  """				if v.get_state_set() == 1:
+					self.c_current_state = v.py_get_state().copy()
+				else:
+					self.c_current_state = self.interface.get_initial_state().copy()
+				for species_index in range(self.num_species):
+					dummy_r[0, species_index] = self.c_current_state[species_index]""",
+  """				for species_index in range(self.num_species):
+					dummy_r[0, species_index] = self.c_current_state[species_index]""", 'fire', 'R19.6-own-state')
+M('C19', 'state-loaded-from-other-object', L,
+  "			self.c_current_state = v.py_get_state().copy()\n		else:", "			self.c_current_state = self.cs.py_get_state().copy()\n		else:", 'fire', 'R19.6-own-state')
+
+# ------------------------------------------------------------------ property-breaking changes written by independent agents (seeded/<id>):
+# every kept seed is re-run as a fire variant against the property it breaks; `expect_rule` in its meta.json names the rule that reports it
+import json as _json
+import os as _os
+import re as _re
+_SEEDED = _os.path.join(_os.path.dirname(_os.path.dirname(_os.path.abspath(__file__))), 'seeded')
+for _d in sorted(_os.listdir(_SEEDED)) if _os.path.isdir(_SEEDED) else []:
+    _mf = _os.path.join(_SEEDED, _d, 'meta.json')
+    if not _os.path.exists(_mf):
+        continue
+    _m = _json.load(open(_mf))
+    _exp = _m.get('expect_rule') or (_re.findall(r'R\d+\.\d+-[A-Za-z0-9-]+', _m.get('caught_by', '')) or [''])[0]
+    MUTANTS.append({'prop': _m['breaks_property'], 'name': 'seed-' + _d, 'kind': 'fire', 'patch': 'seeded/%s/patch.diff' % _d, 'expect': _exp})
